@@ -27,6 +27,18 @@ CHECKS = {
         ref="DESIGN.md §4 C19"),
 }
 
+CHECKS["C10"] = dict(
+    technique="interval analysis of the escaper loop over all code points + taint over abstract document shapes + CFG gating + writer encoding rule",
+    text="Static argument (A): the per-character escaping loop is executed symbolically with ord(c) ranging over every Unicode "
+         "scalar value; each path's code-point set and appended pieces are computed exactly (intervals, affine forms). "
+         "Pass-through sets must lie inside the range the file encoding and \\ansi decode identically; \\u values must lie in "
+         "[-32768,32767] and be the signed-16 image (BMP) or the UTF-16 surrogate pair; \\ucN must be followed by exactly N "
+         "literal fallback characters; no raw user-text atom may appear in the document shape of any of the three encode "
+         "paths; the escaping step must not be control-dependent on the conversion flag; all writers name their encoding.",
+    note=TRUSTED + "Assumes RTF readers decode bytes < 0x80 identically under \\ansi and honour \\uc1. Not decided: third-party "
+         "reader behaviour; raw RTF fragments the user supplies on purpose (input restriction).",
+    ref="DESIGN.md §4 C10")
+
 NOT_YET = "check not built yet in this session (design in DESIGN.md); claimed once its checker exists"
 
 NOT_APPLICABLE: dict[str, str] = {}
